@@ -48,6 +48,20 @@ def doc_flags(net):
     return dr, frc
 
 
+def doc_slack(net):
+    """pressure-fixed start nodes as documented: junctions of IN-SERVICE ext grids of type p / pt and flow junctions of
+    IN-SERVICE circulation pumps (type p / pt) - taken from the tables, not from the NODE_TYPE column of the pit"""
+    L = net["_lookups"]
+    out = np.zeros(L["node_length"], dtype=bool)
+    jl = L["node_index"]["junction"]
+    for tbl, col in (("ext_grid", "junction"), ("circ_pump_pressure", "flow_junction"), ("circ_pump_mass", "flow_junction")):
+        if tbl in net and len(net[tbl]):
+            t = net[tbl]
+            m = t.in_service.values.astype(bool) & np.isin(t.type.values, ["p", "pt"])
+            out[jl[t[col].values[m].astype(int)]] = True
+    return out
+
+
 def branches_literal(bp, net=None):
     """structural branch rows; DIRECTED / FRC are the *documented* flags when the net is given (the model then says
     what the property says; a pit that flags other kinds shows up as a mask mismatch)"""
@@ -78,7 +92,8 @@ def conn_case(net, check=True):
     lit_bs = branches_literal(bpit, net)
     ddr, dfrc = doc_flags(net)
     nact = npit[:, n.ACTIVE].astype(bool)
-    slack = npit[:, n.NODE_TYPE] == n.P
+    slack = doc_slack(net)           # documented supplies; a pit that fixes other nodes shows up as a mask mismatch
+    slack_as_documented = bool(np.array_equal(slack, npit[:, n.NODE_TYPE] == n.P))
     try:
         s.identify_active_nodes_branches(net)
         obs = (net["_lookups"]["node_active_hydraulics"].copy(), net["_lookups"]["branch_active_hydraulics"].copy())
@@ -89,6 +104,7 @@ def conn_case(net, check=True):
     info = {"nodes": len(npit), "branches": len(bpit), "failed": obs is None,
             "unsupplied_nodes": int(np.sum(~obs[0])) if obs else len(npit),
             "frc": int(np.sum(dfrc)), "directed": int(np.sum(ddr)),
+            "slack_as_documented": slack_as_documented,
             "flags_as_documented": bool(np.array_equal(ddr, bpit[:, b.DIRECTED].astype(bool)) and
                                         np.array_equal(dfrc, bpit[:, b.FLOW_RETURN_CONNECT].astype(bool)))}
     return txt, info, obs
